@@ -388,7 +388,9 @@ def signal_table():
     import signal
     out = []
     for k in sorted(dir(signal)):
-        if k.startswith('SIG') and not k.startswith('SIG_'):
+        # like datatypes.SIGNUMS: every attribute whose name starts with SIG,
+        # which includes the handler / sigmask constants SIG_DFL SIG_IGN SIG_BLOCK ...
+        if k.startswith('SIG'):
             v = getattr(signal, k)
             if isinstance(v, int):
                 out.append((k, int(v)))
